@@ -466,27 +466,77 @@ def r3_windows(repo, report):
     report.ob("C07.R3", "search window reaches back length + max_errors when indels are allowed", ok, facts={"windows": sorted(windows), "builder_knows_about_indels": has_indel_param, "widened_by_max_errors_in__make_kmer_finder_when_indels": widened_later},
               expected="window start <= -(length + max_errors) unless indels are disabled", loc=repo.loc(lp), fact_key="window-ignores-indels",
               why="" if ok else "the window of a tier starts at -length: with an inserted base in the read the first k-mer of the occurrence lies one position further left (anchored 3' adapter GCGGAAT$ -e 0.2 on CGTGCGGATAT)")
-    # front sets are the mirror of the back sets
+    # front sets are the mirror of the back sets; the internal set covers the whole read: the function explored whole
     cp = _roles_positions_and_kmers(repo)
-    t = src(cp)
-    ok = "create_back_overlap_searchsets(adapter[::-1], min_overlap, error_rate)" in t.replace("\n", " ").replace("  ", "").replace("( ", "(").replace(", )", ")") or "adapter[::-1]" in t
-    fr = [n for n in ast.walk(cp) if isinstance(n, ast.For) and "reversed_back_search_sets" in src(n.iter)]
-    ok2 = len(fr) == 1 and "(0, -start, new_kmer_set)" in src(fr[0]) and "kmer[::-1]" in src(fr[0])
-    report.ob("C07.R3", "front search sets mirror the back search sets", ok and ok2, facts={"loop": src(fr[0])[:200] if fr else None}, expected="back sets of the reversed adapter, k-mers reversed, window (0, -start)", loc=repo.loc(cp))
-    # internal set
-    ic = [n for n in ast.walk(cp) if isinstance(n, ast.If) and src(n.test) == "internal"]
-    ok = len(ic) == 1 and "kmer_chunks(adapter, max_errors + 1)" in src(ic[0]) and "(0, None, kmer_sets)" in src(ic[0])
-    mx = [src(n.value) for n in ast.walk(cp) if isinstance(n, ast.Assign) and chain(n.targets[0]) == "max_errors"]
-    report.ob("C07.R3", "internal search set", ok and mx == ["int(len(adapter) * error_rate)"], facts={"max_errors": mx}, expected="whole read searched for max_errors + 1 chunks of the adapter, max_errors = int(len(adapter) * error_rate)", loc=repo.loc(cp))
+    cps = params(cp)
+
+    def hook_cp(ex, node, env):
+        cn = chain(node.func)
+        if cn in ("create_back_overlap_searchsets", "kmer_chunks", "remove_redundant_kmers"):
+            return Obj(f"{cn}({', '.join(vkey(ex.ev(a_, env)) for a_ in node.args)})", nonnull=True)
+        return None
+
+    env_cp = {cps[0]: Obj("ADAPTER", nonnull=True), cps[1]: Lin.atom("MINOV"), cps[2]: Obj("RATE", nonnull=True), cps[3]: Obj("BACK"), cps[4]: Obj("FRONT"), cps[5]: Obj("INTERNAL")}
+    rws = explore(repo, strip_docstring(cp.body), env_cp, call_hook=hook_cp, inline=False)
+    BACKSETS = "create_back_overlap_searchsets(ADAPTER, MINOV, RATE)"
+    REV = "create_back_overlap_searchsets(ADAPTER[::-1], MINOV, RATE)"
+    INTERNAL = "(0, None, kmer_chunks(ADAPTER, int(RATE*len(ADAPTER))+1))"
+    bad = []
+    for r in rws:
+        ret = vkey(r.exit[1]) if r.exit[0] == "return" else r.exit[0]
+        if not ret.startswith("remove_redundant_kmers("):
+            bad.append(("the search sets are not passed through remove_redundant_kmers", ret[:80]))
+            continue
+        ext = [e[2] for e in r.effects if e[0] == "call" and e[1].endswith(".extend")]
+        has_back = any(BACKSETS in x for x in ext)
+        has_int = INTERNAL in ret
+        nonempty = any(k.startswith("loop-nonempty:" + REV) and v is True for k, v in r.valuation.items())
+        has_front = f"(0, -item({REV})[0], " in ret
+        if r.valuation.get("truthy:BACK") is not None and has_back != (r.valuation.get("truthy:BACK") is True):
+            bad.append(("back sets requested", r.valuation.get("truthy:BACK"), "emitted", has_back))
+        if r.valuation.get("truthy:INTERNAL") is not None and has_int != (r.valuation.get("truthy:INTERNAL") is True):
+            bad.append(("internal set requested", r.valuation.get("truthy:INTERNAL"), "emitted", has_int, ret[:160]))
+        if r.valuation.get("truthy:FRONT") is True:
+            if not any(k.startswith("loop-nonempty:" + REV) for k in r.valuation):
+                bad.append(("front sets are not derived from the back sets of the reversed adapter", sorted(r.valuation)))
+            elif nonempty != has_front:
+                bad.append(("each reversed back set (start, None, kmers) must give the front set (0, -start, reversed kmers)", ret[:200]))
+        elif has_front and r.valuation.get("truthy:FRONT") is False:
+            bad.append(("front sets emitted without being requested", ret[:120]))
+    # the k-mers of a front set are the reversed k-mers of the mirrored back set
+    fl = [n for n in ast.walk(cp) if isinstance(n, ast.For) and isinstance(n.target, ast.Tuple) and len(n.target.elts) == 3]
+    sc = [x for l in fl for x in ast.walk(l) if isinstance(x, ast.SetComp)]
+    ok_sc = len(fl) == 1 and len(sc) == 1 and len(sc[0].generators) == 1 and not sc[0].generators[0].ifs and isinstance(sc[0].generators[0].target, ast.Name) \
+        and src(sc[0].generators[0].iter) == src(fl[0].target.elts[2]) and src(sc[0].elt) == f"{sc[0].generators[0].target.id}[::-1]"
+    if not ok_sc:
+        bad.append(("the k-mers of a front set must be the reversed k-mers of the back set", src(sc[0]) if sc else None))
+    decided = sum(1 for r in rws if all(r.valuation.get(k) is not None for k in ("truthy:BACK", "truthy:FRONT", "truthy:INTERNAL")))
+    report.ob("C07.R3", "search sets: back / mirrored front / internal", not bad and decided >= 8, facts={"rows": len(rws), "problems": [str(b_)[:240] for b_ in bad[:3]]},
+              expected="back_adapter -> back sets of the adapter; front_adapter -> for each back set (start, None, K) of the reversed adapter the set (0, -start, reversed K); internal -> (0, None, max_errors + 1 chunks of the whole adapter), max_errors = int(len(adapter) * error_rate); all through remove_redundant_kmers",
+              loc=repo.loc(cp), cases=len(rws), why=str(bad[0])[:220] if bad else "")
     # merging of equal k-mers takes the widest window
     mm = _roles_minimize(repo)
     t = src(mm)
     ok = "max((stop for start, stop in front_searches))" in t and "min((start for start, stop in back_searches))" in t and "(0, None) in positions" in t
     report.ob("C07.R3", "merging equal k-mers keeps the widest window", ok, facts={}, expected="front: max of stops; back: min of starts; (0, None) dominates", loc=repo.loc(mm))
     # error tiers: a new tier starts where int(i * error_rate) increases
-    el = [l for l in loops if src(l.iter) == "range(adapter_length + 1)"]
-    ok = len(el) == 1 and "int(i * error_rate) > max_error" in src(el[0]) and "error_lengths.append((max_error, i - 1))" in src(el[0])
-    report.ob("C07.R3", "error tiers", ok, facts={"loop": src(el[0])[:200] if el else None}, expected="tier e ends at the largest length i - 1 with int(i * rate) == e", loc=repo.loc(fn))
+    el = [l for l in loops if src(l.iter) == "range(adapter_length + 1)" and isinstance(l.target, ast.Name)]
+    ok = len(el) == 1
+    tbl = {}
+    if ok:
+        rws = explore(repo, el[0].body, {el[0].target.id: Lin.atom("I"), ps[2]: Obj("RATE", nonnull=True), "max_error": Lin.atom("ME"), "error_lengths": Obj("EL", nonnull=True)}, inline=False, loop_mode="forbid")
+        for r in rws:
+            sg = r.valuation.get("sign:ME-int(I*RATE)")
+            eff = sorted(e[2] for e in r.effects if e[0] == "call") + [f"max_error={vkey(r.env.get('max_error'))}"]
+            tbl.setdefault(str(sg), set()).add(tuple(eff))
+        want = {"-1": {("EL.append((ME, I-1))", "max_error=ME+1")}, "0": {("max_error=ME",)}, "1": {("max_error=ME",)}}
+        ok = tbl == want
+        # the last tier ends at the full adapter length
+        after = [x for x in strip_docstring(fn.body) if isinstance(x, ast.Expr) and isinstance(x.value, ast.Call) and chain(x.value.func) == "error_lengths.append" and x.lineno > el[0].lineno]
+        ok = ok and len(after) == 1 and src(after[0].value.args[0]) == "(max_error, adapter_length)"
+        inits = {chain(x.targets[0]): src(x.value) for x in strip_docstring(fn.body) if isinstance(x, ast.Assign) and x.lineno < el[0].lineno and chain(x.targets[0])}
+        ok = ok and inits.get("max_error") == "0" and inits.get("adapter_length") == f"len({ps[0]})"
+    report.ob("C07.R3", "error tiers", ok, facts={"table": {k: sorted(map(list, v)) for k, v in tbl.items()}}, expected="for i in 0..len(adapter): when int(i * rate) exceeds the current tier e, tier e ends at length i - 1 and e += 1; the last tier ends at len(adapter)", loc=repo.loc(fn), cases=3)
 
 
 def r4_bounds(repo, report):
